@@ -10,7 +10,7 @@ func allProps() []PropSpec {
 				{Func: "ZZ_C01_H3", Pkg: "pkg/protocol/http1", Quick: map[string]int{"C": 2, "S": 2, "SL": 2, "FRAG": 1}, Thorough: map[string]int{"C": 3, "S": 3, "SL": 2, "FRAG": 2}, Covers: []string{"reached-assert", "two-chunks"}},
 				{Func: "ZZ_C01_H4", Pkg: "pkg/protocol/http1", Quick: map[string]int{"K": 3, "FRAG": 3}, Thorough: map[string]int{"K": 4, "FRAG": 4}, Covers: []string{"reached-assert", "two-requests"}},
 				{Func: "ZZ_C01_BIG", Pkg: "pkg/protocol/http1", Covers: []string{"reached-assert"}, Unwind: 40000, MaxSteps: 8000000, Note: "body lengths 4095..4097 and 8191..8193, fixed and chunked, four fragmentations"},
-				{Func: "ZZ_C14_H1", Pkg: "pkg/protocol/http1", Quick: map[string]int{"L": 4, "C": 2, "S": 3, "R": 2}, Thorough: map[string]int{"L": 6, "C": 2, "S": 6, "R": 3}, Covers: []string{"reached-assert"}, MaxSteps: 4000000, Note: "streaming mode: shared with C14 (its pipelined-request-still-handled assertion is a C01 clause)"},
+				{Func: "ZZ_C14_H1", Pkg: "pkg/protocol/http1", Quick: map[string]int{"L": 4, "C": 2, "S": 3, "R": 2, "C01": 1}, Thorough: map[string]int{"L": 6, "C": 2, "S": 6, "R": 3, "C01": 1}, Covers: []string{"reached-assert"}, MaxSteps: 4000000, Note: "streaming mode: shared with C14 (its pipelined-request-still-handled assertion is a C01 clause)"},
 			},
 			Assumptions: []string{"transport: the real standard.Conn over a harness net.Conn; netpoll is outside", "bodies are a few bytes; buffer-boundary sizes (4 KiB/8 KiB) are C13/C14's subject", "Content-Length spellings valid only with HTAB as OWS are in neither obligation (refusing them is safe)", "multipart pre-parsing disabled"},
 		},
@@ -94,8 +94,8 @@ func allProps() []PropSpec {
 			Harnesses: []HarnessSpec{
 				{Func: "ZZ_C14_H1", Pkg: "pkg/protocol/http1", Quick: map[string]int{"L": 6, "C": 2, "S": 6, "R": 3}, Thorough: map[string]int{"L": 9, "C": 2, "S": 7, "R": 4}, Covers: []string{"reached-assert", "stopped-mid-body", "read-to-eof"}, MaxSteps: 4000000},
 				{Func: "ZZ_C14_H2", Pkg: "pkg/protocol/http1", Covers: []string{"reached-assert", "both-handled"}, Note: "pooled bodyStream reuse across two connections after a failed release (sync.Pool modelled LIFO)"},
-				{Func: "ZZ_C14_BIG", Pkg: "pkg/protocol/http1", Covers: []string{"reached-assert", "read-beyond-prefetch"}, Unwind: 40000, MaxSteps: 8000000, Note: "8 KiB regime: bodies of 8193..8201 and 9000 bytes, read buffers 16 B .. 16 KiB"},
-				{Func: "ZZ_C14_H3", Pkg: "pkg/protocol/http1", Quick: map[string]int{"S": 3, "R": 3}, Thorough: map[string]int{"S": 5, "R": 4}, Covers: []string{"reached-assert", "connection-kept", "connection-closed-after-first"}, MaxSteps: 4000000, Note: "chunked body with ordinary / forbidden / malformed / symbolic trailer section: only the sentinel may follow"},
+				{Func: "ZZ_C14_BIG", Pkg: "pkg/protocol/http1", Covers: []string{"reached-assert", "read-beyond-prefetch", "pipelined-request-handled"}, Unwind: 40000, MaxSteps: 8000000, Note: "8 KiB regime: bodies of 8193..8201 and 9000 bytes, read buffers 16 B .. 16 KiB"},
+				{Func: "ZZ_C14_H3", Pkg: "pkg/protocol/http1", Quick: map[string]int{"S": 3, "R": 3}, Thorough: map[string]int{"S": 5, "R": 4}, Covers: []string{"reached-assert", "connection-kept", "connection-closed-after-first", "ordinary-trailer-kept-the-connection"}, MaxSteps: 4000000, Note: "chunked body with ordinary / forbidden / malformed / symbolic trailer section: only the sentinel may follow"},
 			},
 			Assumptions: []string{"transport: real standard.Conn over a harness net.Conn, delivered whole or byte-at-a-time; netpoll outside", "small bodies (<= 9 bytes) with small prefetch limits plus the 8 KiB regime (ZZ_C14_BIG) with concrete pattern bodies", "read-buffer sizes from {0,1,3,16}"},
 		},
